@@ -5,7 +5,7 @@ EXTENDS HeaderFooter, Json
 Trace == ndJsonDeserialize("trace.ndjson")
 VARIABLE l
 Ev == Trace[l]
-TraceInit == l = 1 /\ flags = [np |-> 1, hdr |-> "none", num |-> "none", foot |-> FALSE, brep |-> FALSE, bnum |-> FALSE, beqh |-> FALSE, title |-> "none", drift |-> "none", grid |-> FALSE, short |-> FALSE, cover |-> FALSE]
+TraceInit == l = 1 /\ flags = [np |-> 1, hdr |-> "none", num |-> "none", foot |-> FALSE, brep |-> FALSE, bnum |-> FALSE, beqh |-> FALSE, title |-> "none", drift |-> "none", grid |-> FALSE, hnum |-> FALSE, short |-> FALSE, cover |-> FALSE]
              /\ doc = DocOf(flags) /\ opt = "both"
 TraceDoc == /\ l <= Len(Trace) /\ Ev.event = "Doc" /\ l' = l + 1
             /\ flags' = Ev.flags /\ doc' = DocOf(Ev.flags) /\ opt' = Ev.opt
